@@ -1,6 +1,164 @@
-(* Props/C20.v — placeholder while the proofs are being built *)
-From PV Require Import Gen.C20Tables Spec.C20Attr.
-Theorem C20_gen_tags_arm : gen_attr_tag_arm = spec_attr_tag_arm.
-Proof. reflexivity. Qed.
-Print Assumptions C20_gen_tags_arm.
-Example C20_ex : True. Proof. exact I. Qed.
+(* Props/C20.v — property C20: ARM / RISC-V build attributes and ARM unwind tables are
+   decoded exactly.  Only statements, closed by [exact]; proofs live in
+   Proofs/C20Attr.v and Proofs/C20Ehabi.v.
+   Models: Model/C20Attr.v (elf/sections.py AttributesSection, AttributesSubsection,
+   AttributesSubsubsection, ARMAttribute, RISCVAttribute), Model/C20Ehabi.v
+   (ehabi/ehabiinfo.py get_entry, arm_expand_prel31; ehabi/decoder.py), over the tables
+   of Gen/C20Tables.v regenerated from the live modules.
+   Specifications: Spec/C20Attr.v (IHI 0045, RISC-V psABI), Spec/C20Ehabi.v (IHI 0038). *)
+From PV Require Import Base.Bytes Base.Outcome Base.Prim Spec.PrimSpec Model.C20Types
+  Gen.C20Tables Spec.C20Attr Spec.C20Ehabi Model.C20Attr Model.C20Ehabi
+  Proofs.C20Attr Proofs.C20Ehabi.
+
+(* ======================= build attributes ======================= *)
+
+(* Gen = Spec, tag tables: the Enum of the live tag struct and the table of the standard
+   name every integer identically (or both reject it) *)
+Theorem C20_attr_tag_tables : forall fl t,
+  enum_name (ai_table (impl_of fl)) t = name_of_tag (tag_table fl) t.
+Proof. exact tag_tables_agree. Qed.
+Print Assumptions C20_attr_tag_tables.
+
+(* the if/elif chain on tag names picks, for every entry of the tables (50 + 11 entries),
+   the value kind the standard assigns to the tag number *)
+Theorem C20_attr_tag_dispatch : forall fl name t,
+  In (name, t) (tag_table fl) -> ai_class (impl_of fl) name = class_of_kind (tag_kind fl t).
+Proof. exact tag_dispatch_agrees. Qed.
+Print Assumptions C20_attr_tag_dispatch.
+
+(* Gen = Spec, layouts: subsection header and the primitive fields, both byte orders *)
+Theorem C20_attr_layouts : forall le,
+  gen_attr_subsection_header le = spec_attr_subsection_header le /\
+  gen_elf_word le = Spec.C20Attr.u32_kind le /\ gen_elf_byte le = "u8"%string /\
+  gen_elf_uleb128 le = "uleb128"%string /\ gen_elf_ntbs le = "ntbs"%string.
+Proof. exact attr_layouts_agree. Qed.
+Print Assumptions C20_attr_layouts.
+
+(* one attribute of any kind (uleb128, NTBS, compatibility, nested also-compatible-with),
+   any valid uleb128 encoding, any following bytes: decoded exactly, consumed exactly *)
+Theorem C20_attribute_exact : forall fl le a tail,
+  wf_attr fl a = true ->
+  p_attr (impl_of fl) le (enc_attr a ++ tail) = Ok (expected_attr fl a, tail).
+Proof. exact p_attr_valid. Qed.
+Print Assumptions C20_attribute_exact.
+
+(* the whole section: ANY number of subsections, of sub-subsections in each, of section /
+   symbol numbers and of attributes in each; both byte orders; both flavours; the section
+   anywhere in the file ([pre] before it, [post] after it) *)
+Theorem C20_attributes_exact : forall fl le pre post l,
+  wf_section fl l = true ->
+  read_attr_section (impl_of fl) le (pre ++ enc_section le l ++ post)
+                    (zlen pre) (zlen (enc_section le l))
+  = Ok (expected_section fl l).
+Proof. exact read_attr_section_valid. Qed.
+Print Assumptions C20_attributes_exact.
+
+(* ======================= prel31 ======================= *)
+
+(* for ALL integers: sign-extended 31-bit offset added to the place, modulo 2^64 *)
+Theorem C20_prel31_spec : forall w place, arm_expand_prel31 w place = prel31_spec w place.
+Proof. exact prel31_model_spec. Qed.
+Print Assumptions C20_prel31_spec.
+
+(* every displacement in [-2^30, 2^30) survives the encoding, whatever bit 31 of the word is *)
+Theorem C20_prel31_roundtrip : forall w d place,
+  disp_ok d = true -> w mod 2 ^ 31 = prel31_encode d ->
+  prel31_spec w place = (place + d) mod 2 ^ 64.
+Proof. exact prel31_roundtrip. Qed.
+Print Assumptions C20_prel31_roundtrip.
+
+(* ======================= index / table entries ======================= *)
+
+Theorem C20_ehabi_layouts : forall le,
+  gen_eh_index_struct le = spec_eh_index_struct le /\
+  gen_eh_table_struct le = spec_eh_table_struct le /\
+  gen_ehabi_index_entry_size = spec_ehabi_index_entry_size.
+Proof. exact ehabi_layouts_agree. Qed.
+Print Assumptions C20_ehabi_layouts.
+
+(* every entry kind (cannot-unwind, inline compact, table compact models 0/1/2 with any
+   number of extra words, generic personality, the four corrupt shapes), every displacement,
+   any file of less than 2^63 bytes in which the index entry lies at its place and the
+   table entry at its offset, both byte orders *)
+Theorem C20_entry_kinds_exact : forall img le sh_off sh_size n a,
+  zlen img < 2 ^ 63 -> 0 <= sh_off -> 0 <= n < sh_size / 8 ->
+  wf_entry (sh_off + n * 8) a = true ->
+  at_ img (sh_off + n * 8) (enc_index le (sh_off + n * 8) a) ->
+  (table_words a <> [] -> at_ img (table_offset a) (enc_table le a)) ->
+  exists r, get_entry img le sh_off sh_size n = Ok r /\
+            mask_tbl a r = expected_entry (sh_off + n * 8) a.
+Proof. exact get_entry_valid. Qed.
+Print Assumptions C20_entry_kinds_exact.
+
+(* ======================= byte-code ======================= *)
+
+(* first-byte dispatch of the regenerated ring, finite sweep: for each of the 256 first
+   bytes the selected handler consumes what Table 4 says and, for each of the 256 operand
+   bytes where there is one, returns the text of Table 4 *)
+Theorem C20_bytecode_ring_sweep : forallb ring_ok_byte bytes256 = true.
+Proof. exact ring_sweep. Qed.
+Print Assumptions C20_bytecode_ring_sweep.
+
+(* instruction lists of any length over the full opcode space, uleb128 operands of any
+   value in any valid encoding: items and texts are exactly the specification's *)
+Theorem C20_bytecode_exact : forall l,
+  forallb wf_insn l = true -> bc_decode (enc_insns l) = Ok (expected_insns l).
+Proof. exact bc_decode_valid. Qed.
+Print Assumptions C20_bytecode_exact.
+
+(* on ALL byte strings the disassembler equals the reference decision list; an instruction
+   cut off by the end of the array is the only failure *)
+Theorem C20_bytecode_total : forall bs, all_bytes bs = true ->
+  bc_decode bs = of_disasm (spec_disasm (S (List.length bs)) bs).
+Proof. exact bc_decode_total. Qed.
+Print Assumptions C20_bytecode_total.
+
+Theorem C20_mnemonic_array_exact : forall r l,
+  forallb wf_insn l = true -> l <> [] -> eo_bytecode r = Some (enc_insns l) ->
+  mnemonic_array r = Ok (Some (expected_insns l)).
+Proof. exact mnemonic_array_valid. Qed.
+Print Assumptions C20_mnemonic_array_exact.
+
+(* ======================= non-vacuity ======================= *)
+Open Scope string_scope.
+Open Scope list_scope.
+
+(* two vendor subsections; file, section and symbol scopes; every value kind; padded uleb128 *)
+Definition ex_section : list subsec :=
+  [ {| sb_vendor := [97; 101; 97; 98; 105];
+       sb_subs := [ {| ss_scope := 1; ss_tp := 0; ss_nums := []; ss_termpad := 0;
+                       ss_attrs := [ANtbs 5 0 [55; 45; 65]; AUleb 6 1 10 2; ACompat 32 0 1 0 [103];
+                                    ANestUleb 65 0 6 0 300 0; ANestNtbs 65 0 67 1 [50]] |};
+                    {| ss_scope := 2; ss_tp := 2; ss_nums := [(1, 0%nat); (200, 1%nat)]; ss_termpad := 1;
+                       ss_attrs := [AUleb 34 0 (2 ^ 40) 0] |} ] |};
+    {| sb_vendor := [103; 110; 117];
+       sb_subs := [ {| ss_scope := 3; ss_tp := 0; ss_nums := [(7, 0%nat)]; ss_termpad := 0; ss_attrs := [] |} ] |} ].
+Example C20_ex_section_wf : wf_section ARM ex_section = true.
+Proof. vm_compute. reflexivity. Qed.
+Example C20_ex_section_runs :
+  read_attr_section arm_impl false ([9; 9; 9] ++ enc_section false ex_section ++ [7])
+                    3 (zlen (enc_section false ex_section))
+  = Ok (expected_section ARM ex_section).
+Proof. vm_compute. reflexivity. Qed.
+Example C20_ex_riscv_wf :
+  wf_section RISCV [ {| sb_vendor := [114]; sb_subs :=
+    [ {| ss_scope := 1; ss_tp := 0; ss_nums := []; ss_termpad := 0;
+         ss_attrs := [ANtbs 5 0 [114; 118]; AUleb 4 0 16 0] |} ] |} ] = true.
+Proof. vm_compute. reflexivity. Qed.
+
+(* a displacement whose bits 26 and 30 differ, a negative one, an entry of each kind *)
+Example C20_ex_prel31 : disp_ok 0x04000000 = true /\ disp_ok (- 0x04000001) = true /\
+  prel31_spec 0x04000000 0x100 = 0x04000100.
+Proof. vm_compute. auto. Qed.
+Example C20_ex_entries :
+  forallb (wf_entry 0x100)
+    [ECantUnwind (-8); EInline 0x04000000 0xb1 0x0f 0xb0; ETable0 12 0x40 0xa8 0xb0 0xb0;
+     ETable12 (- 0x20000000) 0x180 2 0xb2 0x81 [(0x01, 0xc9, 0x84, 0xb0)]; EGeneric 4 0x44 (-0x30);
+     ECorruptIndex 0x80000001 1; ECorruptInline 0 0x81b0b0b0; ECorruptTable 0 0x48 0x90000000;
+     ECorruptModel 0 0x4c 3 0] = true.
+Proof. vm_compute. reflexivity. Qed.
+Example C20_ex_bytecode :
+  forallb wf_insn [I1 0x3f; I2 0x80 0x00; I2 0xb1 0x0f; IU 300 1; I2 0xc8 0xff; I1 0xb0] = true /\
+  bc_decode (enc_insns [IU 300 1; I1 0xb0])
+  = Ok [([0xb2; 0xac; 0x82; 0x00], "vsp = vsp + 1716"); ([0xb0], "finish")].
+Proof. vm_compute. auto. Qed.
